@@ -59,6 +59,9 @@ def to_fn(node):
                 k, neg = ('LT', r, l), True
             else:
                 k, neg = ('LT', l, r), True
+            # canonical orientation: LT(x, y) with x <= y textually; LT(y, x) == not LT(x, y) (no exact ties)
+            if k[1] > k[2]:
+                k, neg = ('LT', k[2], k[1]), not neg
             return {k}, (lambda a: not a[k]) if neg else (lambda a: a[k])
         if op in (ast.Is, ast.IsNot) and up(node.comparators[0]) == 'None':
             k = ('SET', l)
@@ -87,3 +90,8 @@ def equivalent(fn_code, fn_ref):
         if fn_code[1](a) != fn_ref[1](a):
             return False, a, n
     return True, None, n
+
+
+def LT(x, y):
+    """Reference atom for x < y in canonical orientation: returns (atom, negated)."""
+    return (('LT', x, y), False) if x <= y else (('LT', y, x), True)
